@@ -1,11 +1,78 @@
-// Package c09: correspondence ops for C09 (stub, not yet built).
 package c09
 
 import (
+	"encoding/json"
+
 	"verifharness/internal/core"
 	"verifharness/internal/registry"
 )
 
 func init() { registry.Register("C09", Ops) }
 
-func Ops() []*core.Op { return nil }
+func Ops() []*core.Op {
+	return []*core.Op{
+		{
+			Name: "c09.node",
+			Doc:  "one Reconcile of the REAL node termination controller (finalize: claim delete, instance-gone shortcut, taint, awaitDrain, awaitVolumeDetachment, awaitInstanceTermination, status patch, finalizer removal) on the fake client + wrapped fake provider with per-call fault injection; action log, result, end state and the ground-truth snapshot at every finalizer removal",
+			N: func(t core.Tier) int {
+				if t == core.Thorough {
+					return 30000
+				}
+				return 2500
+			},
+			Gen:  genNode,
+			Enum: enumNode,
+			Impl: implNode,
+			Rule: "non-trivial = the reconcile got past the guards (at least one effectful call was made); distinct = distinct inputs",
+			Nontrivial: func(_ json.RawMessage, impl any) bool {
+				o, ok := impl.(map[string]any)
+				return ok && len(nodeReached(o)) > 0
+			},
+			Labels:         nodeLabels,
+			Signature:      nodeSignature,
+			Shrink:         shrinkNode,
+			ExhaustiveNote: "single-claim matrix ready x instance x taint x Drained state/age x pod case x attachment case x deadline (4032 states) + every single fault position x class on 48 base states",
+		},
+		{
+			Name: "c09.claim",
+			Doc:  "one Reconcile of the REAL NodeClaim lifecycle controller: finalize (grace-period annotation, wait for / delete the Nodes of a registered claim, provider Delete until NotFound, InstanceTerminating patch, finalizer removal) and, for a fresh claim, the launch path that precedes it (finalizer patch, provider Create, persisting patches), with per-call fault injection; action log, result, end state and the ground-truth snapshot at every finalizer removal",
+			N: func(t core.Tier) int {
+				if t == core.Thorough {
+					return 30000
+				}
+				return 2500
+			},
+			Gen:  genClaim,
+			Enum: enumClaim,
+			Impl: implClaim,
+			Rule: "non-trivial = at least one effectful call was made; distinct = distinct inputs",
+			Nontrivial: func(_ json.RawMessage, impl any) bool {
+				o, ok := impl.(map[string]any)
+				return ok && len(nodeReached(o)) > 0
+			},
+			Labels:         claimLabels,
+			Signature:      func(json.RawMessage, any) string { return "claim" },
+			Shrink:         shrinkClaim,
+			ExhaustiveNote: "registered x instance x node case x InstanceTerminating x annotation (324 states) + every single fault position x class on 6 base states + launch path x every fault",
+		},
+		{
+			Name: "c09.protocol",
+			Doc:  "whole deletion histories: the REAL node termination controller and the REAL NodeClaim lifecycle controller (incl. the launch that precedes a deletion) reconciling in arbitrary order on one fake API + provider, interleaved with environment events (user deletes, pods leaving / terminating / arriving late, attachments detaching, clock, instance disappearing, kubelet not ready, process restart) and per-call faults / crashes; the Lean transition system is compared after every event, the specification judges the ground truth at every finalizer removal and provider Delete, and every state is checked for an orphaned instance",
+			N: func(t core.Tier) int {
+				if t == core.Thorough {
+					return 12000
+				}
+				return 1200
+			},
+			Gen:            genProto,
+			Enum:           enumProto,
+			Impl:           implProto,
+			Rule:           "non-trivial = the history reaches the instance stage (the provider is asked to terminate the instance, or a finalizer is removed); distinct = distinct histories",
+			Nontrivial:     protoNontrivial,
+			Labels:         protoLabels,
+			Signature:      func(json.RawMessage, any) string { return "protocol" },
+			Shrink:         shrinkProto,
+			ExhaustiveNote: "8 scripted histories x every reconcile event x every fault kind x class injected at that event alone; thorough: + a restart before every event, + every pair of reconcile events x 4x4 failing call kinds",
+		},
+	}
+}
